@@ -2,7 +2,7 @@
 # tools/runall.sh <quick|thorough> [ids...]: run checks sequentially, one summary line each
 T=${1:-quick}; shift
 IDS=${@:-C01 C02 C03 C04 C05 C06 C07 C08 C09 C10 C11 C12 C13 C14 C15 C16 C17 C18 C19 C20}
-cd /verif
+cd "$(dirname "$0")/.."
 for id in $IDS; do
   s=$(date +%s); out=$(./check $id $T 2>&1); rc=$?
   echo "$id rc=$rc $(( $(date +%s)-s ))s :: $(echo "$out" | tail -1 | cut -c1-200)"
